@@ -147,13 +147,13 @@ def gen_case(rng, nitems):
         else:
             els = ','.join('%x' % rand_pattern(rng, TSIZE[t]) for _ in range(nel))
         items[i] = 'D %s %s %s' % (nm, t, els)
-    iface = rng.choice('iiggl')
+    iface = rng.choice('iigglb')
     if iface == 'g':
         # an unrelated use-after-free in mir-gen.c (ssa_dead_code_elimination / pressure_relief, -O2 and up)
         # is triggered by some integer expression functions; those modules are generated at -O0/-O1
         risky = any(s.startswith('F') and len(s.split()) > 3 for s in items)
         iface += str(rng.choice([0, 1]) if risky else rng.choice([0, 1, 2, 2, 3]))
-    elif iface == 'l':
+    elif iface in ('l', 'b'):   # lazy function / lazy basic-block generation
         iface += str(rng.choice([0, 1, 2, 2, 3]))
     return '%s : %s' % (iface, ' ; '.join(items))
 
@@ -187,6 +187,8 @@ BOUNDARY = [
     'i : G ; L 1 0 - 0 ; L - 1 - 0 ; L - 2 - 8 ; L - 1 0 0 ; L - 2 0 0 ; L - 0 2 0 ; L - 2 1 fffffffffffffff9',
     'g : G ; L 1 0 - 0 ; L - 1 - 0 ; L - 2 - 8 ; L - 1 0 0 ; L - 2 0 0 ; L - 0 2 0 ; L - 2 1 fffffffffffffff9',
     'l : L 0 0 - 0 ; D - u8 1 ; L - 1 0 4 ; G ; L - 2 - 0 ; B - 3',
+    'b : G ; L 1 0 - 0 ; L - 1 - 0 ; L - 2 - 8 ; L - 1 0 0 ; L - 2 0 0 ; L - 0 2 0 ; L - 2 1 fffffffffffffff9',
+    'b1 : L 0 0 - 0 ; D - u8 1 ; L - 1 0 4 ; G ; L - 2 - 0 ; B - 3',
     'i : F i64 m c10 ; D 1 u8 1 ; E - 0',
     'i : F i64 c10 ; F i32 + c1 m a0 ; E 2 0 ; E - 1',
     'g : D 0 u8 1 ; L - 0 - 0',
